@@ -132,7 +132,9 @@ Callback(n) ==
   /\ UNCHANGED <<sc, b, fin, mark, tmp, nops>>
 
 \* (resuming ramps the fade across one chunk - inexact gains; resume continuity is C12's subject)
+\* (... so the only resume generated is the redundant one: to a track that is playing - it changes nothing, now or later)
 INext == \/ \E o \in {"pause"}, x \in Subs : Op(o, x)
+         \/ \E x \in Subs : state[x] = "Playing" /\ Op("resume", x)
          \/ \E s \in Snds : Op("finish", s)
          \/ \E x \in {"B", "AB", "S", "S2"} : Op("drop", x)
          \/ \E n \in Ns : Callback(n)
